@@ -1,53 +1,60 @@
 (* Session.v — the watch-mode session of beff-wasm (packages/beff-wasm/src/lib.rs): the thread-local cache of parsed
    modules (BUNDLER.files), LazyFileManager::get_or_fetch_file, update_file_content_inner, and a rebuild.
 
-   The compiler proper is a parameter: `parse` is parse_and_bind as a function of the file name and its text.  It also
-   resolves the file's import specifiers against the files that exist at that moment; the model does not represent
-   that dependence, so its theorems are about histories over a fixed set of files (updates of existing files).  A
-   module created during the session leaves the cached importers with their old resolutions: a listed finding
-   (import_resolution_frozen_in_cached_importer), judged on the implementation.  `extract` is
+   The compiler proper is a parameter: `parse` is parse_and_bind as a function of the names of the files that exist (it
+   resolves the file's import specifiers against them), the file name and its text.  A module created during the session
+   leaves the cached importers with the resolutions of the moment they were parsed: the theorems are therefore about
+   histories that update existing files (what the watcher produces); creation is refuted in Props/C14.v and is a listed
+   finding (import_resolution_frozen_in_cached_importer).  `extract` is
    beff_core::extract seen as a function of what the file manager answers, returning the result and the files it asked for.
    The cache is represented by the text each cached module was parsed from (what the hook `cached_sources` reports). *)
 From Beff Require Export Model.Base.
 
 Section Session.
   Variables M Out : Type.
-  Variable parse : string -> string -> option M.
+  (* parse_and_bind: the names of the files that exist (import specifiers are resolved against them), the file, its text *)
+  Variable parse : list string -> string -> string -> option M.
   Variable extract : (string -> option M) -> Out * list string.
 
-  Record sstate := mkS { disk : list (string * string); cache : list (string * string) }.
+  (* the cache remembers, per file, the text its module was parsed from and the file names that existed then *)
+  Record sstate := mkS { disk : list (string * string); cache : list (string * (string * list string)) }.
+
+  Definition names (dk : list (string * string)) : list string := keys dk.
 
   Definition read (dk : list (string * string)) (f : string) : option M :=
-    match assoc f dk with Some c => parse f c | None => None end.
+    match assoc f dk with Some c => parse (names dk) f c | None => None end.
 
   (* get_or_fetch_file: the cache first, else read + parse *)
   Definition fetch (st : sstate) (f : string) : option M :=
     match assoc f (cache st) with
-    | Some c => parse f c
+    | Some (c, ns) => parse ns f c
     | None => read (disk st) f
     end.
 
   (* the watcher: the file changed on disk, its new text is handed to update_file_content *)
   Definition update (f c : string) (st : sstate) : sstate :=
-    mkS (assoc_set f c (disk st))
-        (match parse f c with
-         | Some _ => assoc_set f c (cache st)
+    let dk := assoc_set f c (disk st) in
+    mkS dk
+        (match parse (names dk) f c with
+         | Some _ => assoc_set f (c, names dk) (cache st)
          | None => assoc_remove f (cache st)
          end).
 
   (* the pinned tree before the repair: a text that does not parse left the old entry in place *)
   Definition update_keeping_stale (f c : string) (st : sstate) : sstate :=
-    mkS (assoc_set f c (disk st))
-        (match parse f c with
-         | Some _ => assoc_set f c (cache st)
+    let dk := assoc_set f c (disk st) in
+    mkS dk
+        (match parse (names dk) f c with
+         | Some _ => assoc_set f (c, names dk) (cache st)
          | None => cache st
          end).
 
-  Definition cache_after_fetch (dk ca : list (string * string)) (f : string) : list (string * string) :=
+  Definition cache_after_fetch (dk : list (string * string)) (ca : list (string * (string * list string))) (f : string)
+    : list (string * (string * list string)) :=
     match assoc f ca with
     | Some _ => ca
     | None => match assoc f dk with
-              | Some c => match parse f c with Some _ => assoc_set f c ca | None => ca end
+              | Some c => match parse (names dk) f c with Some _ => assoc_set f (c, names dk) ca | None => ca end
               | None => ca
               end
     end.
@@ -69,9 +76,17 @@ Section Session.
     | Rebuild :: ops' => let r := rebuild st in (fst r, disk st) :: run upd ops' (snd r)
     end.
 
-  (* the invariant: every cached module was parsed from the text the file has now *)
+  (* the invariant: every cached module was parsed from the text the file has now, among the files that exist now *)
   Definition coherent (st : sstate) : Prop :=
-    forall f c, assoc f (cache st) = Some c -> assoc f (disk st) = Some c.
+    forall f c ns, assoc f (cache st) = Some (c, ns) -> assoc f (disk st) = Some c /\ ns = names (disk st).
+
+  (* a history of the kind the watcher produces: only files that already exist are updated *)
+  Fixpoint updates_existing (ops : list sop) (ns : list string) : Prop :=
+    match ops with
+    | [] => True
+    | Update f _ :: ops' => In f ns /\ updates_existing ops' ns
+    | Rebuild :: ops' => updates_existing ops' ns
+    end.
 End Session.
 
 (* ---------- conformance of an observed session (the hook reports the cache after every step) ---------- *)
